@@ -1,4 +1,5 @@
 import Driver.Wire
+import Sio.Model.CodecSpec
 open Lean (Json)
 namespace Sio.KCodec
 open Sio.Wire
@@ -75,6 +76,36 @@ def step (_ : Unit) (j : Json) : Except String (Unit × Json) := do
       let final := match fin with | some pk => pk | none => p
       pure ((), Json.mkObj [("pkt", packetToJson final), ("natt", Json.num n),
                             ("answers", Json.arr answers.toArray)])
+  else if op == "spec_frame" then
+    -- the specification codec (Sio/Model/CodecSpec.lean) on the same constructor arguments
+    let t ← (← j.getObjVal? "type").getNat?
+    let nsp ← optStrOfJson (← j.getObjVal? "nsp")
+    let id ← optNatOfJson (← j.getObjVal? "id")
+    let d ← optJOfJson (← j.getObjVal? "data")
+    let bin : Option Bool := match j.getObjVal? "binary" with
+      | .ok (Json.bool b) => some b
+      | _ => none
+    match mkPacket true t d nsp id bin with
+    | .error e => pure ((), excJson e)
+    | .ok p =>
+      let (text, atts) := Spec.frame J.dumps p
+      pure ((), Json.mkObj [("type", Json.num p.type), ("text", strToJson text),
+        ("atts", Json.arr (atts.map (fun b => Json.str (bytesToHex b))).toArray)])
+  else if op == "spec_parse" then
+    -- the grammar-directed parser of the specification, then its reassembly
+    let text ← strOfJson (← j.getObjVal? "text")
+    let loads ← loadsOfJson (← j.getObjVal? "loads")
+    let atts ← (← j.getObjVal? "atts").getArr?
+    let atts ← atts.toList.mapM (fun a => do let s ← a.getStr?; pure (bytesOfHex s))
+    match Spec.parse loads text with
+    | .error e => pure ((), excJson e)
+    | .ok (p, n) =>
+      let filled : Json := match p.data with
+        | none => Json.mkObj [("none", Json.bool true)]
+        | some d => match Spec.fill atts d with
+          | some r => Json.mkObj [("some", jToJson r)]
+          | none => Json.mkObj [("missing", Json.bool true)]
+      pure ((), Json.mkObj [("pkt", packetToJson p), ("natt", Json.num n), ("filled", filled)])
   else throw s!"unknown op {op}"
 
 def main : IO Unit := lineLoop () step
